@@ -4,7 +4,7 @@ import json
 META = {
     "level": "exploration",
     "technique": "TLA+ relation RelDialPlan (ShouldDial / Attempted) evaluated by TLC on every record of a real Swarm::dial call over an exhaustively enumerated grid of peer state x condition x address lists",
-    "text": "Exhaustive grid: 4 PeerConditions x connected? x dialing? x explicit address lists (length <= 2 quick / 3 thorough over {a1, a2, own listen address}, duplicates included) x behaviour-supplied lists (<= 2 over {a2, a3, listen}) x extend flag, plus dials without peer id. For each point a fresh real Swarm over the puppet transport is brought into that state, Swarm::dial is called once, and TLC evaluates the relation on the recorded result, transport dials (address + /p2p suffix), DialFailure callbacks and pending counter.",
+    "text": "Exhaustive grid: 4 PeerConditions x connected? x dialing? (a plain pending dial, one with role override, or one that was just aborted by disconnect_peer_id and not polled yet) x explicit address lists (length <= 2 quick / 3 thorough over {a1, a2, own listen address}, duplicates included) x behaviour-supplied lists (<= 2 over {a2, a3, listen}) x extend flag, plus dials without peer id. For each point a fresh real Swarm over the puppet transport is brought into that state, Swarm::dial is called once, and TLC evaluates the relation on the recorded result, transport dials (address + /p2p suffix), DialFailure callbacks and pending counter.",
     "note": "Abstract alphabet of three addresses per source; 'connected'/'dialing' realised with one established / one pending connection to the peer.",
     "design_ref": "6/C04",
 }
